@@ -607,12 +607,25 @@ class C07(RunSpec):
         p["entry"] = "tree"
         if idx % 10 == 3:
             # adaptive mutation (its step depends on the deme's own clock) on non-leaf levels, with hibernation and slots that free up
-            p.update({"n_levels": 3, "root": "sea_adapt", "inner": "sea_adapt", "hibernation": True, "level_limit": 2 + (idx // 10) % 2,
-                      "lscs": ["user", "melimit", "dontstop"], "gscs": ["melimit"], "sprout": _cycle(["simple", "nbc"], idx // 10), "fams": ["rastrigin", "funnel"]})
+            p.update({"n_levels": 3, "root": "sea_adapt", "inner": "sea_adapt", "leaf": _cycle(["sea", "de", "cma", "shade"], idx // 10), "hibernation": True,
+                      "level_limit": 2 + (idx // 10) % 2, "lscs": ["melimit", "user"], "root_lsc": "dontstop", "gsc": "melimit",
+                      "sprout": _cycle(["simple", "nbc", "simple"], idx // 10), "fams": ["rastrigin", "funnel"], "boxes": ["sym", "asym"]})
         return p
+
+    def make_case(self, seed, idx, tier):
+        d = super().make_case(seed, idx, tier)
+        if idx % 10 == 3 and d.get("kind") == "tree" and not d.get("reuse"):
+            d["gsc"] = {"k": "melimit", "n": 14}
+            d["levels"][0]["lsc"] = {"k": "dontstop"}
+            d["levels"][1]["lsc"] = {"k": "dontstop"}
+            d["levels"][2]["lsc"] = {"k": "melimit", "n": 2}
+            if d["sprout"]["k"] == "simple":
+                d["sprout"]["far"] = min(b[1] - b[0] for b in d["box"]["bounds"]) * 0.05
+        return d
 
     def floors(self, tier):
         return [
+            ("C07.adaptive_mutation_deme_woke_up", 2, "a deme with adaptive mutation went through a sleep-wake cycle"),
             ("C07.three_level_tree_two_sprouting_parents", 1, "3-level tree with >=2 sprouting parents on level 1"),
             ("C07.round_creating_2_children", 1, "round creating >=2 children"),
             ("C07.custom_deme_class_seen.custom", 1, "custom deme class registered for a new config class"),
